@@ -36,7 +36,8 @@ use std::{
 use compio_buf::{BufResult, IoBuf, IoBufMut, SetLenExt};
 use compio_io::{
     AsyncRead, AsyncWrite,
-    compat::{AsyncStream, SyncStream},
+    compat::{AsyncReadStream, AsyncStream, AsyncWriteStream, SyncStream, SyncStreamReadHalf, SyncStreamWriteHalf},
+    util::Splittable,
 };
 use hx_common::*;
 
@@ -107,6 +108,8 @@ struct Sh {
     revent: bool,
     wevent: bool,
     shutdowns_ok: usize,
+    /// inner reads that returned 0
+    zero_reads: usize,
     /// bytes still in the write buffer according to accepted/sent at the moment of a successful shutdown
     sent_at_shutdown: Option<usize>,
 }
@@ -155,6 +158,9 @@ fn poll_r<B: IoBufMut>(sh: &Shared, cx: &mut Context<'_>, buf: &mut B) -> Poll<i
             }
             unsafe { buf.advance_to(n) };
             s.delivered.extend_from_slice(&d[..n]);
+            if n == 0 {
+                s.zero_reads += 1;
+            }
             s.log.push(format!("r{space}:{n}"));
             Poll::Ready(Ok(n))
         }
@@ -164,6 +170,7 @@ fn poll_r<B: IoBufMut>(sh: &Shared, cx: &mut Context<'_>, buf: &mut B) -> Poll<i
         }
         Some(RItem::Z) | None => {
             s.genuine_eof = true;
+            s.zero_reads += 1;
             s.log.push(format!("r{space}:0"));
             Poll::Ready(Ok(0))
         }
@@ -311,12 +318,184 @@ fn err_kind(e: &io::Error) -> &'static str {
 
 type AStream = AsyncStream<(Inner, Inner)>;
 
+/// a `SyncStream`, whole or split into its two halves (`Splittable::split`)
+enum SyncSut {
+    Whole(Box<SyncStream<Inner>>),
+    Split(Box<SyncStreamReadHalf<Inner>>, Box<SyncStreamWriteHalf<Inner>>),
+}
+
+macro_rules! rd {
+    ($s:expr, $x:ident => $e:expr) => {
+        match $s {
+            SyncSut::Whole($x) => $e,
+            SyncSut::Split($x, _) => $e,
+        }
+    };
+}
+macro_rules! wr {
+    ($s:expr, $x:ident => $e:expr) => {
+        match $s {
+            SyncSut::Whole($x) => $e,
+            SyncSut::Split(_, $x) => $e,
+        }
+    };
+}
+
+impl SyncSut {
+    fn read(&mut self, buf: &mut [u8]) -> io::Result<usize> {
+        rd!(self, x => x.read(buf))
+    }
+    fn read_buf_uninit(&mut self, buf: &mut [MaybeUninit<u8>]) -> io::Result<usize> {
+        rd!(self, x => x.read_buf_uninit(buf))
+    }
+    fn fill_buf(&mut self) -> io::Result<&[u8]> {
+        rd!(self, x => x.fill_buf())
+    }
+    fn consume(&mut self, n: usize) {
+        rd!(self, x => x.consume(n))
+    }
+    fn write(&mut self, data: &[u8]) -> io::Result<usize> {
+        wr!(self, x => x.write(data))
+    }
+    fn flush(&mut self) -> io::Result<()> {
+        wr!(self, x => Write::flush(&mut **x))
+    }
+    fn fill(&mut self, budget: usize) -> Option<io::Result<usize>> {
+        rd!(self, x => drive(x.fill_read_buf(), budget))
+    }
+    fn wflush(&mut self, budget: usize) -> Option<io::Result<usize>> {
+        wr!(self, x => drive(x.flush_write_buf(), budget))
+    }
+    fn is_eof(&self) -> bool {
+        rd!(self, x => x.is_eof())
+    }
+    fn has_pending_write(&self) -> bool {
+        wr!(self, x => x.has_pending_write())
+    }
+    fn into_parts(self) -> Vec<u8> {
+        match self {
+            SyncSut::Whole(x) => (*x).into_parts().1,
+            SyncSut::Split(r, _) => (*r).into_parts().1,
+        }
+    }
+    fn debug(&self) -> Option<String> {
+        match self {
+            SyncSut::Whole(x) => catch(|| format!("{x:?}")).ok(),
+            SyncSut::Split(r, w) => catch(|| format!("{r:?} {w:?}")).ok(),
+        }
+    }
+}
+
+/// an `AsyncStream`, whole or as separate `AsyncReadStream` / `AsyncWriteStream` halves
+enum AsyncSut {
+    Whole(Pin<Box<AStream>>),
+    Split(Pin<Box<AsyncReadStream<Inner>>>, Pin<Box<AsyncWriteStream<Inner>>>),
+}
+
+impl AsyncSut {
+    fn poll_read(&mut self, cx: &mut Context<'_>, buf: &mut [u8]) -> Poll<io::Result<usize>> {
+        use futures_util::AsyncRead as FRead;
+        match self {
+            AsyncSut::Whole(s) => FRead::poll_read(s.as_mut(), cx, buf),
+            AsyncSut::Split(r, _) => FRead::poll_read(r.as_mut(), cx, buf),
+        }
+    }
+    fn poll_read_uninit(&mut self, cx: &mut Context<'_>, buf: &mut [MaybeUninit<u8>]) -> Poll<io::Result<usize>> {
+        match self {
+            AsyncSut::Whole(s) => s.as_mut().poll_read_uninit(cx, buf),
+            AsyncSut::Split(r, _) => r.as_mut().poll_read_uninit(cx, buf),
+        }
+    }
+    fn poll_fill_buf(&mut self, cx: &mut Context<'_>) -> Poll<io::Result<Vec<u8>>> {
+        use futures_util::AsyncBufRead as FBufRead;
+        match self {
+            AsyncSut::Whole(s) => FBufRead::poll_fill_buf(s.as_mut(), cx).map(|r| r.map(|b| b.to_vec())),
+            AsyncSut::Split(r, _) => FBufRead::poll_fill_buf(r.as_mut(), cx).map(|r| r.map(|b| b.to_vec())),
+        }
+    }
+    fn consume(&mut self, n: usize) {
+        use futures_util::AsyncBufRead as FBufRead;
+        match self {
+            AsyncSut::Whole(s) => FBufRead::consume(s.as_mut(), n),
+            AsyncSut::Split(r, _) => FBufRead::consume(r.as_mut(), n),
+        }
+    }
+    fn poll_write(&mut self, cx: &mut Context<'_>, data: &[u8]) -> Poll<io::Result<usize>> {
+        use futures_util::AsyncWrite as FWrite;
+        match self {
+            AsyncSut::Whole(s) => FWrite::poll_write(s.as_mut(), cx, data),
+            AsyncSut::Split(_, w) => FWrite::poll_write(w.as_mut(), cx, data),
+        }
+    }
+    fn poll_flush(&mut self, cx: &mut Context<'_>) -> Poll<io::Result<()>> {
+        use futures_util::AsyncWrite as FWrite;
+        match self {
+            AsyncSut::Whole(s) => FWrite::poll_flush(s.as_mut(), cx),
+            AsyncSut::Split(_, w) => FWrite::poll_flush(w.as_mut(), cx),
+        }
+    }
+    fn poll_close(&mut self, cx: &mut Context<'_>) -> Poll<io::Result<()>> {
+        use futures_util::AsyncWrite as FWrite;
+        match self {
+            AsyncSut::Whole(s) => FWrite::poll_close(s.as_mut(), cx),
+            AsyncSut::Split(_, w) => FWrite::poll_close(w.as_mut(), cx),
+        }
+    }
+}
+
 enum Sut {
     None,
     /// consumed by `into_parts`
     Gone,
-    Sync(Box<SyncStream<Inner>>),
-    Async(Pin<Box<AStream>>),
+    Sync(SyncSut),
+    Async(AsyncSut),
+}
+
+/// `usize` constants of the constructors without explicit limits
+const DEFAULT_BUF_SIZE: usize = 8 * 1024;
+const DEFAULT_MAX_BUFFER: usize = 64 * 1024 * 1024;
+
+/// Allocator that counts allocations while armed and leaves the process (exit code 42) once a budget is used up.
+/// Every iteration of the retry loops of the poll entry points boxes a new future, so "the call never returns"
+/// shows up as an unbounded number of allocations — independent of machine load, unlike a timer.
+struct CountingAlloc;
+static ARMED: std::sync::atomic::AtomicBool = std::sync::atomic::AtomicBool::new(false);
+static ALLOCS: std::sync::atomic::AtomicUsize = std::sync::atomic::AtomicUsize::new(0);
+const ALLOC_BUDGET: usize = 3_000;
+
+unsafe impl std::alloc::GlobalAlloc for CountingAlloc {
+    unsafe fn alloc(&self, layout: std::alloc::Layout) -> *mut u8 {
+        use std::sync::atomic::Ordering::Relaxed;
+        if ARMED.load(Relaxed) && ALLOCS.fetch_add(1, Relaxed) > ALLOC_BUDGET {
+            unsafe { libc::_exit(42) };
+        }
+        unsafe { std::alloc::System.alloc(layout) }
+    }
+
+    unsafe fn dealloc(&self, ptr: *mut u8, layout: std::alloc::Layout) {
+        unsafe { std::alloc::System.dealloc(ptr, layout) }
+    }
+}
+
+#[global_allocator]
+static GLOBAL: CountingAlloc = CountingAlloc;
+
+/// run `f` in a forked copy of this (single-threaded) process with an allocation budget (and a 60 s alarm as a
+/// backstop): true = it did not return (the call spins), false = it returned or panicked
+fn would_spin(f: impl FnOnce()) -> bool {
+    unsafe {
+        let pid = libc::fork();
+        assert!(pid >= 0, "fork");
+        if pid == 0 {
+            libc::alarm(60);
+            ARMED.store(true, std::sync::atomic::Ordering::Relaxed);
+            let _ = catch(f);
+            libc::_exit(0);
+        }
+        let mut status = 0;
+        libc::waitpid(pid, &mut status, 0);
+        libc::WIFSIGNALED(status) || (libc::WIFEXITED(status) && libc::WEXITSTATUS(status) == 42)
+    }
 }
 
 /// implementation-only bookkeeping for the monitors
@@ -346,9 +525,13 @@ struct World {
     mon: Mon,
     wakers: Vec<Waker>,
     is_async: bool,
-    /// a call on this half panicked: the object is poisoned, later calls on the half are skipped
+    /// a call on this half was found to spin (never return): later calls on the half are skipped
     rpoison: bool,
     wpoison: bool,
+    /// a call on this half panicked earlier (calls are still made: the sticky post-panic behaviour is compared)
+    rpanicked: bool,
+    wpanicked: bool,
+    kind: String,
 }
 
 /// which half an operation works on (0 = read, 1 = write, 2 = neither)
@@ -356,6 +539,7 @@ fn half_of(op: &str) -> u8 {
     match op {
         "read" | "rbu" | "fillbuf" | "consume" | "fill" | "pr" | "pru" | "pfb" | "co" => 0,
         "write" | "wflush" | "pw" | "pfl" | "pcl" => 1,
+        "rewrap" => 3,
         _ => 2,
     }
 }
@@ -381,6 +565,9 @@ fn new_world() -> World {
         is_async: false,
         rpoison: false,
         wpoison: false,
+        rpanicked: false,
+        wpanicked: false,
+        kind: String::new(),
     }
 }
 
@@ -398,8 +585,8 @@ fn drive<F: Future>(fut: F, budget: usize) -> Option<F::Output> {
 }
 
 /// `R <init> <progress> <eof> W <init> <progress>` from the derived Debug of the real SyncStream
-fn sync_state(s: &SyncStream<Inner>) -> Option<(usize, usize, bool, usize, usize)> {
-    let d = catch(|| format!("{s:?}")).ok()?;
+fn sync_state(s: &SyncSut) -> Option<(usize, usize, bool, usize, usize)> {
+    let d = s.debug()?;
     let nums = |key: &str| -> Vec<usize> {
         d.match_indices(key)
             .map(|(i, _)| {
@@ -434,10 +621,11 @@ impl World {
         let rowed_before = self.mon.rowed;
         let wowed_before = self.mon.wowed;
         let res = match w[0] {
-            "sync" | "async" => {
+            "sync" | "async" | "ssplit" | "asplit" | "scap" | "acap" | "arw" | "snew" | "anew" | "arwnew" => {
                 let base: usize = w[1].parse().unwrap();
                 let max: usize = w[2].parse().unwrap();
                 *self = new_world();
+                self.kind = w[0].to_string();
                 self.mon.base = base;
                 self.mon.max = max;
                 {
@@ -454,23 +642,47 @@ impl World {
                     ex.tag(format!("wake-style:{:?}", s.style));
                 }
                 ex.tag(format!("cfg:{}:base={base}:max={max}", w[0]));
-                if w[0] == "sync" {
-                    self.sut = Sut::Sync(Box::new(SyncStream::with_limits(base, max, Inner(self.sh.clone()))));
-                } else {
-                    self.is_async = true;
-                    self.sut = Sut::Async(Box::pin(AsyncStream::with_limits(
-                        base,
-                        max,
-                        (Inner(self.sh.clone()), Inner(self.sh.clone())),
-                    )));
-                }
+                self.construct(base, max);
                 "ok".to_string()
             }
             _ => match &mut self.sut {
                 Sut::None => panic!("operation before constructor: {line}"),
                 Sut::Gone => "gone".to_string(),
                 Sut::Sync(_) => self.sync_op(&w, ex),
-                Sut::Async(_) => self.async_op(&w, ex),
+                Sut::Async(_) => {
+                    // the retry loops of the poll entry points can spin for ever in two situations only
+                    // (proved: Props.C12.async_read_terminates / async_write_terminates): after an earlier
+                    // panic on the half, and `poll_write` with `max_buffer_size = 0`. There the call is first
+                    // tried in a forked copy of the process under a CPU-time limit.
+                    // (read half: additionally only once the inner reader has returned 0, i.e. `eof` may be latched;
+                    // write half with limit 0: only a `poll_write` of a non-empty buffer)
+                    let zero_read = self.sh.borrow().zero_reads > 0;
+                    let risky = (half == 0 && self.rpanicked && zero_read && w[0] != "co")
+                        || (half == 1 && self.wpanicked)
+                        || (self.mon.max == 0 && w[0] == "pw" && w[2] != "-");
+                    if risky {
+                        ex.tag("forked");
+                    }
+                    if risky && would_spin(|| {
+                        let mut scratch = Exec::new();
+                        self.async_op(&w, &mut scratch);
+                    }) {
+                        ex.tag(format!("spin:{}", w[0]));
+                        if self.mon.max == 0 && half == 1 && !self.wpanicked {
+                            ex.fail(
+                                "F121:asyncstream-max0-write-spins",
+                                format!("`{line}` never returns: max_buffer_size=0 base={}", self.mon.base),
+                            );
+                        }
+                        if half == 0 {
+                            self.rpoison = true;
+                        } else {
+                            self.wpoison = true;
+                        }
+                        return "spin".into();
+                    }
+                    self.async_op(&w, ex)
+                }
             },
         };
         if res == "panic" {
@@ -483,14 +695,15 @@ impl World {
                 "wflush" => wlost_before,
                 "pw" | "pfl" | "pcl" => stale_before,
                 _ => false,
-            };
+            } || (half == 0 && (self.rpanicked || rlost_before))
+                || (half == 1 && (self.wpanicked || wlost_before));
             if !expected {
                 ex.fail("C12:unexpected-panic", format!("`{line}` panicked without a preceding contract violation"));
             }
             if half == 0 {
-                self.rpoison = true;
+                self.rpanicked = true;
             } else if half == 1 {
-                self.wpoison = true;
+                self.wpanicked = true;
             }
         }
         let woken = drain_wakes();
@@ -540,6 +753,42 @@ impl World {
             self.wake_monitor(line, revent, wevent, &woken, rowed_before, wowed_before, ex);
         }
         out
+    }
+
+    fn construct(&mut self, base: usize, max: usize) {
+        let inner = || Inner(self.sh.clone());
+        let kind = self.kind.clone();
+        match kind.as_str() {
+            "scap" | "acap" | "arw" => assert_eq!(max, DEFAULT_MAX_BUFFER, "{kind}: max must be the default"),
+            "snew" | "anew" | "arwnew" => assert_eq!((base, max), (DEFAULT_BUF_SIZE, DEFAULT_MAX_BUFFER), "{kind}: defaults"),
+            _ => {}
+        }
+        self.is_async = kind.starts_with('a');
+        self.sut = match kind.as_str() {
+            "sync" => Sut::Sync(SyncSut::Whole(Box::new(SyncStream::with_limits(base, max, inner())))),
+            "scap" => Sut::Sync(SyncSut::Whole(Box::new(SyncStream::with_capacity(base, inner())))),
+            "snew" => Sut::Sync(SyncSut::Whole(Box::new(SyncStream::new(inner())))),
+            "ssplit" => {
+                let (r, w) = Splittable::split(SyncStream::with_limits(base, max, (inner(), inner())));
+                Sut::Sync(SyncSut::Split(Box::new(r), Box::new(w)))
+            }
+            "async" => Sut::Async(AsyncSut::Whole(Box::pin(AsyncStream::with_limits(base, max, (inner(), inner()))))),
+            "acap" => Sut::Async(AsyncSut::Whole(Box::pin(AsyncStream::with_capacity(base, (inner(), inner()))))),
+            "anew" => Sut::Async(AsyncSut::Whole(Box::pin(AsyncStream::new((inner(), inner()))))),
+            "asplit" => {
+                let (r, w) = Splittable::split(AsyncStream::with_limits(base, max, (inner(), inner())));
+                Sut::Async(AsyncSut::Split(Box::pin(r), Box::pin(w)))
+            }
+            "arw" => Sut::Async(AsyncSut::Split(
+                Box::pin(AsyncReadStream::with_capacity(base, inner())),
+                Box::pin(AsyncWriteStream::with_capacity(base, inner())),
+            )),
+            "arwnew" => Sut::Async(AsyncSut::Split(
+                Box::pin(AsyncReadStream::new(inner())),
+                Box::pin(AsyncWriteStream::new(inner())),
+            )),
+            k => panic!("constructor {k}"),
+        };
     }
 
     // ------------------------------------------------------------ sync stream operations
@@ -631,14 +880,14 @@ impl World {
                     }
                 }
             }
-            "flush" => match catch(|| Write::flush(&mut **s)) {
+            "flush" => match catch(|| s.flush()) {
                 Ok(Ok(())) => "ok".into(),
                 Ok(Err(e)) => format!("err {}", err_kind(&e)),
                 Err(_) => "panic".into(),
             },
             "fill" => {
                 let budget: usize = w[1].parse().unwrap();
-                match catch(|| drive(s.fill_read_buf(), budget)) {
+                match catch(|| s.fill(budget)) {
                     Ok(Some(Ok(n))) => {
                         ex.tag(if n == 0 { "fill:zero" } else { "fill:ok" });
                         format!("ok {n}")
@@ -661,7 +910,7 @@ impl World {
             }
             "wflush" => {
                 let budget: usize = w[1].parse().unwrap();
-                match catch(|| drive(s.flush_write_buf(), budget)) {
+                match catch(|| s.wflush(budget)) {
                     Ok(Some(Ok(n))) => {
                         ex.tag("wflush:ok");
                         let sent = self.sh.borrow().sent.clone();
@@ -698,7 +947,7 @@ impl World {
             }
             "parts" => {
                 let Sut::Sync(s) = std::mem::replace(&mut self.sut, Sut::None) else { unreachable!() };
-                let (_, rest) = (*s).into_parts();
+                let rest = s.into_parts();
                 let delivered = self.sh.borrow().delivered.clone();
                 if !self.mon.rlost {
                     let mut all = self.mon.taken.clone();
@@ -714,6 +963,40 @@ impl World {
                 self.mon.taken = delivered;
                 format!("ok {}", hex(&rest))
             }
+            "rewrap" => {
+                // into_parts, hand the unread bytes to the caller, wrap the inner stream again
+                let Sut::Sync(s) = std::mem::replace(&mut self.sut, Sut::None) else { unreachable!() };
+                let rest = s.into_parts();
+                let (delivered, sent) = {
+                    let sh = self.sh.borrow();
+                    (sh.delivered.clone(), sh.sent.clone())
+                };
+                if !self.mon.rlost {
+                    let mut all = self.mon.taken.clone();
+                    all.extend_from_slice(&rest);
+                    if all != delivered {
+                        ex.fail(
+                            "C12:read-fifo",
+                            format!("rewrap: taken ++ remaining = {} but the inner stream delivered {}", hex(&all), hex(&delivered)),
+                        );
+                    }
+                }
+                {
+                    let mut sh = self.sh.borrow_mut();
+                    sh.rparked = None;
+                    sh.wparked = None;
+                }
+                self.mon.taken = delivered;
+                // bytes accepted but not yet flushed are discarded by into_parts (documented for into_inner)
+                self.mon.accepted = sent;
+                self.mon.rlost = false;
+                self.mon.wlost = false;
+                self.rpanicked = false;
+                self.wpanicked = false;
+                self.construct(self.mon.base, self.mon.max);
+                ex.tag("rewrap");
+                format!("ok {}", hex(&rest))
+            }
             _ => panic!("bad sync op {w:?}"),
         }
     }
@@ -721,7 +1004,6 @@ impl World {
     // ------------------------------------------------------------ async stream operations
 
     fn async_op(&mut self, w: &[&str], ex: &mut Exec) -> String {
-        use futures_util::{AsyncBufRead as FBufRead, AsyncRead as FRead, AsyncWrite as FWrite};
         let Sut::Async(s) = &mut self.sut else { unreachable!() };
         let mon = &mut self.mon;
         let task = |i: usize| -> usize { w[i].parse::<usize>().unwrap() % 4 };
@@ -742,11 +1024,11 @@ impl World {
                 let entry = if w[0] == "pr" { 0 } else { 1 };
                 let r = if entry == 0 {
                     let mut buf = vec![0u8; n];
-                    catch(|| FRead::poll_read(s.as_mut(), &mut cx, &mut buf).map(|r| r.map(|k| buf[..k].to_vec())))
+                    catch(|| s.poll_read(&mut cx, &mut buf).map(|r| r.map(|k| buf[..k].to_vec())))
                 } else {
                     let mut buf = vec![MaybeUninit::<u8>::uninit(); n];
                     catch(|| {
-                        s.as_mut().poll_read_uninit(&mut cx, &mut buf).map(|r| {
+                        s.poll_read_uninit(&mut cx, &mut buf).map(|r| {
                             r.map(|k| buf[..k].iter().map(|b| unsafe { b.assume_init() }).collect::<Vec<u8>>())
                         })
                     })
@@ -769,7 +1051,7 @@ impl World {
                 let t = task(1);
                 let waker = self.wakers[t].clone();
                 let mut cx = Context::from_waker(&waker);
-                let r = catch(|| FBufRead::poll_fill_buf(s.as_mut(), &mut cx).map(|r| r.map(|b| b.to_vec())));
+                let r = catch(|| s.poll_fill_buf(&mut cx));
                 if let Ok(Poll::Ready(Ok(b))) = &r {
                     if b.is_empty() {
                         mon.eof_reported = true;
@@ -791,7 +1073,7 @@ impl World {
                     let sh = self.sh.borrow();
                     sh.delivered[mon.taken.len().min(sh.delivered.len())..].to_vec()
                 };
-                match catch(|| FBufRead::consume(s.as_mut(), n)) {
+                match catch(|| s.consume(n)) {
                     Ok(()) => {
                         let k = n.min(avail.len());
                         mon.taken.extend_from_slice(&avail[..k]);
@@ -810,7 +1092,7 @@ impl World {
                 let data = unhex(w[2]);
                 let waker = self.wakers[t].clone();
                 let mut cx = Context::from_waker(&waker);
-                let r = catch(|| FWrite::poll_write(s.as_mut(), &mut cx, &data));
+                let r = catch(|| s.poll_write(&mut cx, &data));
                 if let Ok(Poll::Ready(Ok(n))) = &r {
                     mon.accepted.extend_from_slice(&data[..*n]);
                 }
@@ -828,9 +1110,9 @@ impl World {
                 let mut cx = Context::from_waker(&waker);
                 let entry = if w[0] == "pfl" { 1 } else { 2 };
                 let r = if entry == 1 {
-                    catch(|| FWrite::poll_flush(s.as_mut(), &mut cx))
+                    catch(|| s.poll_flush(&mut cx))
                 } else {
-                    catch(|| FWrite::poll_close(s.as_mut(), &mut cx))
+                    catch(|| s.poll_close(&mut cx))
                 };
                 let ok = matches!(r, Ok(Poll::Ready(Ok(()))));
                 let (txt, k) = show(r, |_| String::new());
@@ -1087,6 +1369,28 @@ fn gen_wscript(rng: &mut Rng) -> String {
     if items.is_empty() { ".".into() } else { items.join(",") }
 }
 
+/// constructor and limits: every public constructor of the compat types, whole and split, with base capacities
+/// 0 / 1 / small / 4 KiB / default / 64 KiB and limits 0 / 1 / small / default (64 MiB)
+fn gen_config(rng: &mut Rng, is_async: bool) -> (&'static str, usize, usize) {
+    let r = rng.below(100);
+    if r < 6 {
+        let base = *rng.pick(&[0usize, 1, 3, 16, 4096, 65536]);
+        (if is_async { *rng.pick(&["acap", "arw"]) } else { "scap" }, base, DEFAULT_MAX_BUFFER)
+    } else if r < 9 {
+        (if is_async { *rng.pick(&["anew", "arwnew"]) } else { "snew" }, DEFAULT_BUF_SIZE, DEFAULT_MAX_BUFFER)
+    } else {
+        let base = *rng.pick(&[0usize, 1, 3, 16, 16, 3, 1, 8, 2, 4096]);
+        let max = if rng.chance(1, 40) { 0 } else { *rng.pick(&[1usize, 4, 64, 4, 64, 10, 2, 1000]) };
+        let split = rng.chance(1, 3);
+        (match (is_async, split) {
+            (false, false) => "sync",
+            (false, true) => "ssplit",
+            (true, false) => "async",
+            (true, true) => "asplit",
+        }, base, max)
+    }
+}
+
 /// optional 6th word of the constructor line: how the inner stream wakes its registered waker
 fn gen_style(rng: &mut Rng) -> &'static str {
     *rng.pick(&["", " wake=take", " wake=ref", " wake=clone", " wake=clone", " wake=keep", " wake=keep"])
@@ -1104,13 +1408,12 @@ fn gen_payload(rng: &mut Rng, next: &mut u8) -> Vec<u8> {
 }
 
 fn gen_case(rng: &mut Rng, name: String, long: bool) -> Case {
-    let base = *rng.pick(&[0usize, 1, 3, 16, 16, 3, 1, 8]);
-    let max = *rng.pick(&[1usize, 4, 64, 4, 64, 10]);
     let is_async = rng.chance(1, 2);
+    let (kind, base, max) = gen_config(rng, is_async);
     let hostile = rng.chance(1, 5);
     let (rs, _) = gen_rscript(rng, hostile);
     let ws = gen_wscript(rng);
-    let mut lines = vec![format!("{} {base} {max} {rs} {ws}{}", if is_async { "async" } else { "sync" }, gen_style(rng))];
+    let mut lines = vec![format!("{kind} {base} {max} {rs} {ws}{}", gen_style(rng))];
     let nops = if long { rng.range(8, 40) } else { rng.range(3, 16) };
     let mut next = 0u8;
     let sizes = [0usize, 1, 1, 2, 3, 4, 7, 16, 100];
@@ -1122,7 +1425,8 @@ fn gen_case(rng: &mut Rng, name: String, long: bool) -> Case {
                 0..=24 => format!("pr {t} {}", rng.pick(&sizes)),
                 25..=31 => format!("pru {t} {}", rng.pick(&sizes)),
                 32..=43 => format!("pfb {t}"),
-                44..=47 => format!("co {}", rng.pick(&[0usize, 0, 1, 1, 1, 2, 9])),
+                44..=46 => format!("co {}", rng.pick(&[0usize, 0, 1, 1, 1, 2, 1, 9])),
+                47 => format!("pfb {t}"),
                 48..=53 => format!("pr {t} {}", rng.pick(&sizes)),
                 54..=77 => format!("pw {t} {}", hex(&gen_payload(rng, &mut next))),
                 78..=91 => format!("pfl {t}"),
@@ -1139,8 +1443,9 @@ fn gen_case(rng: &mut Rng, name: String, long: bool) -> Case {
                 57..=76 => format!("write {}", hex(&gen_payload(rng, &mut next))),
                 77..=79 => "flush".to_string(),
                 80..=95 => format!("wflush {}", rng.pick(&[1usize, 2, 3, 9, 9, 9, 9, 9])),
-                96..=98 => "st".to_string(),
-                _ => "parts".to_string(),
+                96..=97 => "st".to_string(),
+                98 => "rewrap".to_string(),
+                _ => if rng.chance(1, 2) { "parts".to_string() } else { "rewrap".to_string() },
             }
         };
         lines.push(line);
@@ -1150,12 +1455,11 @@ fn gen_case(rng: &mut Rng, name: String, long: bool) -> Case {
 
 /// well-behaved caller: the loops a user of the adapters writes (read until EOF, write + flush)
 fn gen_wellbehaved(rng: &mut Rng, name: String) -> Case {
-    let base = *rng.pick(&[0usize, 1, 3, 16]);
-    let max = *rng.pick(&[1usize, 4, 64]);
     let is_async = rng.chance(1, 2);
+    let (kind, base, max) = gen_config(rng, is_async);
     let (rs, total) = gen_rscript(rng, false);
     let ws = gen_wscript(rng);
-    let mut lines = vec![format!("{} {base} {max} {rs} {ws}{}", if is_async { "async" } else { "sync" }, gen_style(rng))];
+    let mut lines = vec![format!("{kind} {base} {max} {rs} {ws}{}", gen_style(rng))];
     let mut next = 0u8;
     let rounds = total / 2 + 12;
     for i in 0..rounds {
@@ -1182,6 +1486,11 @@ fn gen_wellbehaved(rng: &mut Rng, name: String) -> Case {
             }
             if i % 4 == 3 {
                 lines.push("wflush 9".into());
+            }
+            if i % 7 == 6 && rng.chance(1, 3) {
+                // into_parts + re-wrap in the middle of the transfer (after a flush: pending writes would be discarded)
+                lines.push("wflush 9".into());
+                lines.push("rewrap".into());
             }
         }
     }
@@ -1212,7 +1521,8 @@ fn gen_writer_stress(rng: &mut Rng, name: String) -> Case {
             _ => "w0".to_string(),
         });
     }
-    let mut lines = vec![format!("{} {base} {max} . {}{}", if is_async { "async" } else { "sync" }, items.join(","), gen_style(rng))];
+    let kind = if is_async { *rng.pick(&["async", "asplit"]) } else { *rng.pick(&["sync", "ssplit"]) };
+    let mut lines = vec![format!("{kind} {base} {max} . {}{}", items.join(","), gen_style(rng))];
     let mut next = 0u8;
     for _ in 0..rng.range(6, 24) {
         let t = rng.below(3);
